@@ -72,6 +72,12 @@ def run(ctx):
     for _ in range(60 if not thorough else 400):
         n = rng.randrange(0, 6)
         texts.append("".join(rng.choice("0123456789abcdefABCDEFxXgG -") for _ in range(n + 2)))
+    # every ASCII character as the only digit, as high and as low digit of a pair (the parser does u8 arithmetic on ranges)
+    for c in range(1, 128):
+        ch = chr(c)
+        if ch.isspace() and ch != " ":
+            continue
+        texts += ["0x" + ch, "0x" + ch + "1", "0x1" + ch, "0xa" + ch + "2"]
     texts = list(dict.fromkeys(texts))
     mod = ctx.model(["c18_parse %s" % tx(t) for t in texts], label="C18parse")
     # the parser is only reachable through clap: run `new` with a 2-byte-impossible cost? no: use prefixes directly but with
@@ -81,6 +87,15 @@ def run(ctx):
     open(script, "w").write("fail\n")
     env = dict(LD_PRELOAD=shim, HDW_SHIM_SCRIPT=script, HDW_SHIM_DEFAULT="fail")
     res = ctx.cli([dict(args=["new", "--vanity-prefix=" + t, "-j", "0"], env=env) for t in texts])
+    if thorough:  # the optimised build wraps where the checked build panics: it must refuse exactly the same texts
+        res_rel = ctx.cli([dict(args=["new", "--vanity-prefix=" + t, "-j", "0"], env=env) for t in texts], release=True)
+        for t, m, r in zip(texts, mod, res_rel):
+            ctx.count("prefix-parser/release")
+            if m is None:
+                continue
+            if r.cls in ("panic", "signal", "timeout") or r.stdout != b"" or (m.tag == "ok" and r.rc == 2) or (m.tag == "err" and r.rc != 2):
+                ctx.violation("prefix-parser(release build)", dict(op="new --vanity-prefix (parser, release build)", prefix=short(t, 60)),
+                              "accepted iff 0x + hex digits", str(r)[:300])
     for t, m, r in zip(texts, mod, res):
         case = dict(op="new --vanity-prefix (parser)", prefix=short(t, 60))
         ctx.count("prefix-parser/valid" if m is not None and m.tag == "ok" else "prefix-parser/invalid")
@@ -247,6 +262,7 @@ def run(ctx):
             ctx.violation("entropy-failure-in-one-worker", dict(op="new --vanity-prefix 0xfffffff", fail_at_request=rn["k"], threads=rn["j"]),
                           "error exit, nothing printed", str(r)[:300])
     ctx.exhaustive["all 16 single hex digits in both cases"] = True
+    ctx.exhaustive["every ASCII character in every digit position of 1- and 2-digit prefixes (parser accept/reject)"] = True
     for f in os.listdir(tmp):
         os.remove(os.path.join(tmp, f))
     os.rmdir(tmp)
